@@ -3,7 +3,9 @@ PROP = {
         "props_files": ["Props/C09.v"],
         "jobs": [{"component": "codec", "comp_num": 9, "quick": 4000, "thorough": 400000},
                  # the dispatcher's use of the codec: which variant (with/without ids) it emits to a version 2 / 3 peer
-                 {"component": "endpoint", "comp_num": 7, "quick": 800, "thorough": 40000, "timeout": 3000}],
+                 {"component": "endpoint", "comp_num": 7, "quick": 800, "thorough": 40000, "timeout": 3000},
+                 # two real endpoints with different configurations over a byte stream (Connect::io)
+                 {"component": "net", "comp_num": 70, "quick": 320, "thorough": 20000, "args": ["--stream", "5"], "timeout": 3000}],
         "design_ref": "DESIGN.md section 5, C09",
         "level_text": "Theorems (Coq, closed under the global context) on a Gallina transcription of MultiplexMsg::{write,read}, "
                       "ExchangedCfg::{write,read} and the length-prefixed framing: encoder = version-3 table layout for every "
@@ -26,7 +28,11 @@ PROP = {
                 "non-trivial unless it is a field-less message or an unknown-code/empty rejection; distinct = distinct input. "
                 "endpoint stream (shared with C07/C08/C10/C11): ONE real endpoint whose peer is the harness announcing version 2 or 3; local connects, "
                 "port batches sent over a port (Sender::connect) and peer requests/batches with and without ids; every emitted message is compared "
-                "with the dispatcher model (Mux.with_ids decides the variant) and an oracle flags any id sent to a version-2 peer",
+                "with the dispatcher model (Mux.with_ids decides the variant) and an oracle flags any id sent to a version-2 peer. "
+                "net stream 5: two real endpoints over Connect::io (tokio duplex byte streams through a harness tee that parses the u32-LE length "
+                "prefixes and checks every frame against the reader's max_frame_length), chunk sizes 4..16384 and receive buffers drawn independently "
+                "per endpoint, 2-5 items each way: byte strings of 0 .. 3x the larger chunk size and port batches (values carrying up to chunk/4+3 "
+                "channel halves); oracle: connection established, every item received intact and in order, no frame over the reader's limit",
         "assumptions": [
             "hook H2 exposes MultiplexMsg::{to_vec,read} unchanged",
             "tokio_util LengthDelimitedCodec is modelled by frame/deframe and sampled, not verified",
